@@ -81,3 +81,26 @@ PROPS["C05"] = dict(
     scope="all well-formed trees x 3 dialect tables; policy cells exhaustive",
     timeout=3000,
 )
+
+PROPS["C12"] = dict(
+    groups=[],
+    pregen=[("gen-values", "SeaQ/Gen/Values.lean")],
+    lean_props=["SeaQ.Props.C12"],
+    lean_obligations=[],
+    technique="Lean 4: payload-parametric model of Value conversions; the finite wiring table (which variant each From / Nullable / try_from / as_null / dummy_value / tuple impl uses) is observed from the compiled crate on every run and the consistency obligations are decided by the kernel; value-level round trips (exhaustive 8/16-bit, boundaries, float bit patterns, chars, feature types) are tests run beside the theorems",
+    level_text="Machine-checked: for every type whose observed wiring row is consistent (own variant accepted and only that, NULL of the same variant) the round trip, the Option<T> laws (None becomes that NULL and extracts as None; a present value never extracts as absent), failure on every other variant, tuple arity/shape/extraction rules and as_null/dummy_value variant preservation hold for EVERY payload. The consistency of all 38 observed rows x 32 variants is decided by `decide` on the table regenerated from the running crate (all features incl. hashable-value equality). Identity of payload-transforming impls and bit-exactness of floats are tested, not proved.",
+    level_note="Trusted: Lean kernel; the observation harness (tags via an exhaustive match on Value; one non-null + one NULL sample per variant for acceptance); opaque payloads: that try_from returns the stored payload unchanged is a test (all 8/16-bit integers, boundaries, random 32/64-bit, f32/f64 by bits, chars, strings, bytes, JSON, chrono/time/decimal/uuid/network types). A type added to the crate but not to the harness's type list is not seen.",
+    design_ref="§6 C12",
+    scope="wiring: all listed types x all variants (exhaustive); values: tests",
+)
+
+PROPS["C18"] = dict(
+    groups=["hashable"],
+    lean_props=["SeaQ.Props.C18"],
+    lean_obligations=[],
+    technique="Lean 4 proof (mutual structural induction over values and nested arrays) that the modelled Value equality is an equivalence, separates variants, and that equal values have equal hash keys; the arm tables of PartialEq / Hash and the helper bodies are regenerated from src/value.rs by the translator and checked by decide; model tied by all pairs over a value pool against the real == and a fixed hasher",
+    level_text="Machine-checked proof, for all payloads (every NaN payload and sign, both zeros, vectors of any length, arbitrarily nested arrays), that Value equality is reflexive (also for NaN), symmetric and transitive, that values of different variants are never equal, and that equal values feed the hasher equal keys (hence hash equally under every hasher), also for value tuples. Which helper each variant uses for == and for hash is extracted from the source on every run; `arms_ok` requires one diagonal equality arm and a hash arm of the same kind per variant and the helper bodies to be the modelled ones.",
+    level_note="Trusted: Lean kernel; translator; the reading of ordered-float 4.6 (eq: both NaN or IEEE-equal; hash: canonical NaN, canonical zero, raw bits) and IEEE equality of non-NaN values as 'same bits or both zero'; derived ==/Hash of payload types (std, chrono, time, uuid, decimal …) are coherent; serde_json::to_string is a function. The model's valueEq is compared with the real == on all ordered pairs of a 150-250-value pool, all triples are checked for transitivity on the real ==.",
+    design_ref="§6 C18",
+    scope="all values (unbounded payloads / nesting); wiring: all variants",
+)
